@@ -69,7 +69,11 @@ def draw_once(ctx, pid):
             v = strip_refs(v)
             if v[0] == 'bin' and v[1] == 'Sub' and norm(v[2]) == norm(cell) and is_const(v[3], 1):
                 return True
-            return v[0] == 'field' and v[2] == '0' and strip_refs(v[1])[0] == 'downcast' and strip_refs(v[1])[2] == 'Some' and norm(strip_refs(v[1])[1]) == norm(cell)
+            if v[0] == 'field' and v[2] == '0' and strip_refs(v[1])[0] == 'downcast' and strip_refs(v[1])[2] == 'Some':
+                inner = norm(strip_refs(v[1])[1])
+                # Some(d) of an Option cell, or the sentinel decoded by `cell.checked_sub(1)` (= cell - 1 when set)
+                return inner == norm(cell) or (inner[0] == 'call' and short(inner[1]) == 'checked_sub' and len(inner[2]) == 2 and norm(inner[2][0]) == norm(cell) and is_const(inner[2][1], 1))
+            return False
         ret_cached = any(is_cached_value(v) and set_at(b) for b, cs, v in vals)
         ctx.verdict(ret_draw and ret_cached, rule, '%s:%s:returns' % (rule, name), 'the drawing path returns the draw, the other path returns the cached draw and reaches no RNG', f.where(0),
                     'returns draw: %s; returns cached value: %s' % (ret_draw, ret_cached), breaks='the cached outcome is off by one from the drawn one')
